@@ -184,6 +184,90 @@ def case_fold_errors(order):
     return finish_case(I, res)
 
 
+FILE_KINDS = {
+    "good": "#[typeshare]\npub struct Good%d { pub g: u32 }\n",
+    "bad": "#[typeshare]\npub struct Bad%d { pub a: u64 }\n",
+    "good+bad": "#[typeshare]\npub struct Good%d { pub g: u32 }\n#[typeshare]\npub struct AlsoBad%d { pub t: (u8, u8) }\n",
+    "none": "pub struct Plain%d { pub p: u32 }\n",
+    "comment": "// #[typeshare] is only mentioned here\npub struct Plain%d { pub p: u32 }\n",
+    "bad-enum": "#[typeshare]\npub enum BadE%d { A(u32), B }\n",
+}
+
+
+def case_flow(case):
+    """every file goes through parse::parse_dir_entry (real syn AST, parser from MIR), the results through the collector closure,
+    then check_parse_errors: Err exactly when some file holds an annotated item that cannot be generated"""
+    kinds, multi = case
+    from vlib.mirsym import pharness, synast
+    from vlib.mirsym.models_fs import Fs
+    from vlib.mirsym.models_misc import RPath
+    from checks.c06 import collect
+    P = prog()
+    L = P.layout
+    I = new_interp(P)
+    res = {"paths": 0, "violations": [], "case": [list(kinds), multi]}
+    srcs = [FILE_KINDS[k] % ((i,) * FILE_KINDS[k].count("%d")) for i, k in enumerate(kinds)]
+
+    def entry(I):
+        fs = Fs(); fs.add_dir("/w/c/src")
+        asts = {}
+        for i, src in enumerate(srcs):
+            fs.add_file("/w/c/src/f%d.rs" % i, [ord(c) for c in src])
+            asts[src] = synast.parse_source(P, src)
+        I.env["fs"] = fs
+        I.env["parse_file"] = lambda I, s: asts.get(pystr(s))
+        ctx = pharness.parse_context(P, multi_file=multi, prefix="typeshare_core::")
+        lang = EnumV("typeshare_core::language::SupportedLanguage", L.enums["SupportedLanguage"].index("TypeScript"), [])
+        sent = []
+        for i in range(len(srcs)):
+            de = Opaque("DirEntry", RPath(S("/w/c/src/f%d.rs" % i)))
+            r = I.call_static("parse::parse_dir_entry", [Ref([ctx], 0), lang, Ref([de], 0)])
+            if r.variant != 0:
+                return ("walker-error", None)
+            if r.fields[0].variant == 1:
+                sent.append(r.fields[0].fields[0])
+        if not sent:
+            return ("nothing", None)
+        m = collect(I, sent)
+        return ("ok", I.call_static("check_parse_errors", [Ref([m], 0)]))
+
+    want_err = any(k in ("bad", "good+bad", "bad-enum") for k in kinds)
+    for kind, out, pc in I.explore(entry, max_paths=50):
+        res["paths"] += 1
+        if kind == "panic":
+            res["violations"].append({"kind": "panic", "msg": out.msg}); continue
+        st, r = out
+        got_err = st == "walker-error" or (st == "ok" and r.variant == 1)
+        if got_err != want_err:
+            res["violations"].append({"kind": "errors-not-reported" if want_err else "spurious-error", "files": list(kinds), "multi": multi})
+    from checks.pcommon import finish_case
+    return finish_case(I, res)
+
+
+def native_flow(kinds, multi):
+    """real binary on the same files (one crate c), over a pre-existing output"""
+    import os, shutil, tempfile, time
+    from vlib.harness import CliDriver
+    d = tempfile.mkdtemp(prefix="c08-")
+    drv = CliDriver()
+    try:
+        os.makedirs(os.path.join(d, "c", "src"))
+        for i, k in enumerate(kinds):
+            open(os.path.join(d, "c", "src", "f%d.rs" % i), "w").write(FILE_KINDS[k] % ((i,) * FILE_KINDS[k].count("%d")))
+        outdir = os.path.join(d, "out")
+        os.makedirs(outdir)
+        target = os.path.join(outdir, "c.ts" if multi else "out.ts")
+        open(target, "w").write("// previous output\n")
+        st = os.stat(target).st_mtime_ns
+        time.sleep(0.02)
+        rc, so, se = drv.cli(["c", "--lang", "typescript"] + (["-d", outdir] if multi else ["-o", target]), d)
+        touched = open(target).read() != "// previous output\n" or os.stat(target).st_mtime_ns != st
+        return rc, touched
+    finally:
+        drv.close()
+        shutil.rmtree(d, ignore_errors=True)
+
+
 def native_cli(construct="pub a: u64"):
     """real binary: a file with an unsupported construct next to a good file, output file pre-existing"""
     import os, shutil, tempfile, time
@@ -219,13 +303,40 @@ def run_cli_half(rep, tier):
     rep.harnesses["cli-dominance"] = 1
     rep.harnesses["cli-check_parse_errors"] = len(shapes)
     rep.harnesses["cli-fold-errors"] = len(orders)
-    for fn, cs in (("case_errors", shapes), ("case_fold_errors", orders)):
+    import itertools
+    fk = list(FILE_KINDS)
+    flows = [((a,), m) for a in fk for m in (False, True)] + [((a, b), m) for a, b in itertools.product(fk, repeat=2) for m in (False, True)]
+    if tier == "thorough":
+        flows += [(t, False) for t in itertools.product(("good", "bad", "none", "good+bad"), repeat=3)]
+    rep.harnesses["cli-flow"] = len(flows)
+    flow_viol = []
+    for fn, cs in (("case_errors", shapes), ("case_fold_errors", orders), ("case_flow", flows)):
         for st, case, r in pmap(("checks.c08cli", fn), cs):
             rep.obligations += 1
             if st != "ok":
                 rep.inconc("cli %s %s: %s" % (fn, case, r)); continue
             account(rep, r); rep.discharged += 1
-            viol += r["violations"]
+            if fn == "case_flow":
+                flow_viol += [(case, v) for v in r["violations"]]
+            else:
+                viol += r["violations"]
+    seen = set()
+    for case, v in flow_viol:
+        key = (v["kind"], tuple(sorted(set(case[0]))), case[1])
+        if key in seen:
+            continue
+        seen.add(key)
+        rc, touched = native_flow(case[0], case[1])
+        rep.validated += 1
+        want_err = v["kind"] == "errors-not-reported"
+        sig = {"part": "cli-flow", "kind": v["kind"], "files": "+".join(sorted(set(case[0])))}
+        if (want_err and (rc == 0 or touched)) or (not want_err and rc != 0):
+            rep.violation(sig, "typeshare on files %s (%s): exit code %d, existing output %s - %s" % (list(case[0]), "folder" if case[1] else "single file", rc, "modified" if touched else "untouched",
+                                                                                                        "an annotated item cannot be generated but no error stops the run" if want_err else "error without an offending item"),
+                          {"cli": True, "flow": [list(case[0]), case[1]], "want_err": want_err})
+        else:
+            rep.inconc("engine mismatch (cli flow) %s: %s, real binary exit %d, output %s" % (case, v, rc, "modified" if touched else "untouched"))
+    rep.bounds["cli-flow"] = "trees of 1..2 (thorough: 3) files of kinds %s through parse_dir_entry -> collector -> check_parse_errors, single-file and folder mode" % sorted(FILE_KINDS)
     rep.bounds["cli"] = "CFG of cli generate_types (dominance of write_generated by the Ok edge of check_parse_errors(..)?, z3 Datalog); check_parse_errors on 1..3 crates x 0..2 errors each; the collector fold on 2..4 files with/without errors"
     if viol:
         rc, touched, extra, now = native_cli()
@@ -241,7 +352,11 @@ def run_cli_half(rep, tier):
         rep.sample({"harness": "cli", "verdict": "write_generated unreachable without the Ok edge of check_parse_errors (Datalog: unsat); Err iff some crate has errors; errors survive the merge", "cfg": rep.extra.get("cfg")})
 
 
-def replay_cli():
+def replay_cli(c=None):
+    if c and c.get("flow"):
+        rc, touched = native_flow(tuple(c["flow"][0]), c["flow"][1])
+        print("exit code %d, output %s" % (rc, "modified" if touched else "untouched"))
+        return 1 if ((c["want_err"] and (rc == 0 or touched)) or (not c["want_err"] and rc != 0)) else 0
     rc, touched, extra, now = native_cli()
     print("exit code %d, output %s, extra files %s" % (rc, "modified" if touched else "untouched", extra))
     return 1 if (rc == 0 or touched or extra) else 0
